@@ -8,9 +8,11 @@
     checker configured a successful lookup has walked the WHOLE itinerary - every
     level's copy was opened, in order, none skipped - and still returns the first
     handle obtained ([C14_every_copy_seen_any_depth]); the model's checkers open
-    nothing by path themselves ([C14_checkers_open_nothing]). *)
+    nothing by path themselves ([C14_checkers_open_nothing]); and the checker is
+    invoked exactly once for every copy found beyond the first: (copies found) - 1
+    invocations on success, none skipped ([C14_every_copy_is_compared_any_depth]). *)
 From Coq Require Import List NArith ZArith String Bool.
-From Kismet Require Import Pure.Hash FS.Fs FS.Prog Spec.Wp Spec.ClassMon Spec.Calm Ops.Ops Ops.Client Spec.StackSpec Proofs.StackSweep Proofs.LookupOrder.
+From Kismet Require Import Pure.Hash FS.Fs FS.Prog Spec.Wp Spec.ClassMon Spec.Calm Ops.Ops Ops.Client Spec.StackSpec Proofs.StackSweep Proofs.LookupOrder Proofs.CompareAll.
 Import ListNotations.
 
 (** Model = specification, comparisons included, on the whole matrix
@@ -77,3 +79,21 @@ Proof.
   intros a b fail. repeat split.
   all: unfold chk_byteeq, chk_panic, chk_count, chk_count_nf, read_all; allc_auto; apply allc_call; reflexivity.
 Qed.
+
+(** (copies found) - 1 checker invocations, any depth, all responses. *)
+Theorem C14_every_copy_is_compared_any_depth : forall ck cfg k,
+  (forall a b s, wp ca_step (ck a b) (fun _ s' => s' = (fst s, S (snd s))) s) ->
+  s_checker cfg = Some ck ->
+  wp ca_step (cache_get cfg k)
+     (fun r s' => match r with
+                  | Ok (Some _) => fst s' = S (snd s')
+                  | Ok None => s' = (0, 0)%nat
+                  | _ => True
+                  end) (0, 0)%nat.
+Proof. intros ck cfg k H. exact (every_copy_is_compared ck H cfg k). Qed.
+
+Theorem C14_model_checkers_mark_once : forall a b fail s,
+  wp ca_step (chk_byteeq a b) (fun _ s' => s' = (fst s, S (snd s))) s /\
+  wp ca_step (chk_count fail a b) (fun _ s' => s' = (fst s, S (snd s))) s /\
+  wp ca_step (chk_panic a b) (fun _ s' => s' = (fst s, S (snd s))) s.
+Proof. exact model_checkers_mark_once. Qed.
